@@ -397,3 +397,246 @@ def c_pow_si(z, n, prec):
     f.argtypes = [POINTER(mpc_t), POINTER(mpc_t), c_long, c_int]
     f(r.p, a.p, n, 0)
     return c_to_raw(r)
+
+
+# ------------------------------------------------------------------------------------------------
+# signed zeros (branch cuts) and small MPC/MPFR "calculators" for composed references
+
+def c_from_raw_signed(z, neg_re_zero=False, neg_im_zero=False, prec=None):
+    """complex from raws; a zero part can be given a negative sign to select the side of a branch cut"""
+    re, im = z
+    pr = prec or max(2, re[3], im[3])
+    c = C(pr)
+    a = from_raw(re)
+    b = from_raw(im)
+    if neg_re_zero and re == fzero:
+        _mpfr.mpfr_set_zero(a.p, -1)
+    if neg_im_zero and im == fzero:
+        _mpfr.mpfr_set_zero(b.p, -1)
+    _mpc.mpc_set_fr_fr(c.p, a.p, b.p, 0)
+    return c
+
+
+class MC:
+    """MPC calculator at fixed precision (round to nearest); values are C objects"""
+
+    def __init__(self, prec):
+        self.prec = prec
+
+    def z(self, raw_pair, neg_re_zero=False, neg_im_zero=False):
+        return c_from_raw_signed(raw_pair, neg_re_zero, neg_im_zero)
+
+    def real(self, f):
+        """complex from an F (imaginary part +0)"""
+        c = C(self.prec)
+        _mpc.mpc_set_fr(c.p, f.p, 0)
+        return c
+
+    def f(self, name, *args):
+        r = C(self.prec)
+        getattr(_mpc, "mpc_" + name)(r.p, *[a.p for a in args], 0)
+        return r
+
+    def f_fr(self, name, a, x):
+        """mpc_<name>(rop, complex a, real x)  e.g. mul_fr, div_fr, pow_fr"""
+        r = C(self.prec)
+        getattr(_mpc, "mpc_" + name)(r.p, a.p, x.p, 0)
+        return r
+
+    def ui_div(self, n, a):
+        r = C(self.prec)
+        f = _mpc.mpc_ui_div
+        f.argtypes = [POINTER(mpc_t), c_ulong, POINTER(mpc_t), c_int]
+        f(r.p, n, a.p, 0)
+        return r
+
+    def mul_i(self, a, sgn=1):
+        r = C(self.prec)
+        f = _mpc.mpc_mul_i
+        f.argtypes = [POINTER(mpc_t), POINTER(mpc_t), c_int, c_int]
+        f(r.p, a.p, sgn, 0)
+        return r
+
+    def out(self, c):
+        return c_to_raw(c)
+
+
+def c_isnan(pair):
+    return pair[0] == fnan or pair[1] == fnan
+
+
+class Hang(Exception):
+    """the reference library did not answer in time (MPC 1.3.1 loops forever on some inputs, e.g.
+    mpc_acos(-1.25+0.75i) at 177 bits); the case is inconclusive"""
+
+
+def guarded(fn, timeout=8.0):
+    """run fn() in a forked child and return its (picklable) result; raise Hang if it does not finish.
+    C library calls cannot be interrupted by Python signal handlers, hence the child process."""
+    import os, pickle, select, signal
+    r, w = os.pipe()
+    pid = os.fork()
+    if pid == 0:
+        code = 0
+        try:
+            os.close(r)
+            try:
+                payload = pickle.dumps(("ok", fn()))
+            except BaseException as e:  # noqa
+                payload = pickle.dumps(("err", repr(e)))
+            with os.fdopen(w, "wb") as f:
+                f.write(payload)
+        except BaseException:
+            code = 1
+        os._exit(code)
+    os.close(w)
+    data = b""
+    try:
+        import time as _t
+        deadline = _t.time() + timeout
+        while True:
+            left = deadline - _t.time()
+            if left <= 0:
+                raise Hang()
+            ready, _, _ = select.select([r], [], [], left)
+            if not ready:
+                raise Hang()
+            chunk = os.read(r, 1 << 16)
+            if not chunk:
+                break
+            data += chunk
+    except Hang:
+        try:
+            os.kill(pid, signal.SIGKILL)
+        except OSError:
+            pass
+        raise
+    finally:
+        os.close(r)
+        try:
+            os.waitpid(pid, 0)
+        except OSError:
+            pass
+    kind, val = pickle.loads(data)
+    if kind == "err":
+        raise RuntimeError("reference computation failed: " + val)
+    return val
+
+
+class Server:
+    """A persistent forked helper process that evaluates reference functions (fork costs ~60 ms in this sandbox,
+    so one child serves many requests).  A request that does not answer within `timeout` kills the helper (the C
+    library call cannot be interrupted otherwise), a new one is forked lazily, and Hang is raised."""
+
+    def __init__(self):
+        self.pid = None
+        self.rfd = self.wfd = None
+
+    def _start(self):
+        import os
+        c2p_r, c2p_w = os.pipe()
+        p2c_r, p2c_w = os.pipe()
+        pid = os.fork()
+        if pid == 0:
+            try:
+                os.close(c2p_r)
+                os.close(p2c_w)
+                try:
+                    import ctypes, signal
+                    ctypes.CDLL("libc.so.6").prctl(1, signal.SIGKILL)
+                except Exception:
+                    pass
+                self._serve(p2c_r, c2p_w)
+            finally:
+                os._exit(0)
+        os.close(c2p_w)
+        os.close(p2c_r)
+        self.pid, self.rfd, self.wfd = pid, c2p_r, p2c_w
+
+    @staticmethod
+    def _readn(fd, n):
+        import os
+        buf = b""
+        while len(buf) < n:
+            chunk = os.read(fd, n - len(buf))
+            if not chunk:
+                raise EOFError
+            buf += chunk
+        return buf
+
+    def _serve(self, rfd, wfd):
+        import os, pickle, struct, importlib
+        while True:
+            try:
+                n = struct.unpack("<I", self._readn(rfd, 4))[0]
+                modname, fname, args = pickle.loads(self._readn(rfd, n))
+            except EOFError:
+                return
+            try:
+                f = getattr(importlib.import_module(modname), fname)
+                out = ("ok", f(*args))
+            except BaseException as e:  # noqa
+                out = ("err", type(e).__name__, repr(e))
+            data = pickle.dumps(out)
+            os.write(wfd, struct.pack("<I", len(data)) + data)
+
+    def stop(self):
+        import os, signal
+        if self.pid is not None:
+            try:
+                os.kill(self.pid, signal.SIGKILL)
+                os.waitpid(self.pid, 0)
+            except OSError:
+                pass
+            for fd in (self.rfd, self.wfd):
+                try:
+                    os.close(fd)
+                except OSError:
+                    pass
+            self.pid = None
+
+    def call(self, modname, fname, args, timeout=10.0):
+        """returns f(*args) computed in the helper; raises Hang on timeout, RemoteError(name, text) if f raised"""
+        import os, pickle, struct, select, time as _t
+        if self.pid is None:
+            self._start()
+        data = pickle.dumps((modname, fname, args))
+        try:
+            os.write(self.wfd, struct.pack("<I", len(data)) + data)
+        except OSError:
+            self.stop()
+            raise Hang()
+        deadline = _t.time() + timeout
+        buf = b""
+        need = 4
+        header = True
+        while True:
+            left = deadline - _t.time()
+            if left <= 0 or not select.select([self.rfd], [], [], left)[0]:
+                self.stop()
+                raise Hang()
+            chunk = os.read(self.rfd, need - len(buf))
+            if not chunk:
+                self.stop()
+                raise Hang()
+            buf += chunk
+            if len(buf) == need:
+                if header:
+                    need = struct.unpack("<I", buf)[0]
+                    buf = b""
+                    header = False
+                else:
+                    break
+        out = pickle.loads(buf)
+        if out[0] == "err":
+            raise RemoteError(out[1], out[2])
+        return out[1]
+
+
+class RemoteError(Exception):
+    def __init__(self, name, text):
+        Exception.__init__(self, "%s: %s" % (name, text))
+        self.name = name
+
+
+SERVER = Server()
